@@ -339,6 +339,15 @@ class C18Session(Session):
                 path = first_diff(sa, sb)
                 raise Violation("copy_not_equal", f"subtree member {n} ({type(a).__name__}): {path} differs between "
                                 f"original and copy", op="copy", attr=attr_of(path))
+        # the label of the copy is the documented iteration of the original's label
+        if "style_label" not in kw and "style" not in kw:
+            lab0 = obj.style.label if getattr(obj, "_style", None) is not None else None
+            if lab0:
+                want = iterated_label(lab0)
+                if new.style.label != want:
+                    raise Violation("copy_label", f"copy of an object labelled {lab0!r} is labelled "
+                                    f"{new.style.label!r}, documented iteration gives {want!r}", op="copy", attr="label")
+                self.probe("copy_label_iterated")
         # overrides took effect on the copy
         pose_keys = [k for k in kw if k in POSE_COUPLED]
         exc_keys = [k for k in kw if k in ("polarization", "magnetization")]
@@ -497,6 +506,17 @@ def _height(c):
     for ch in getattr(c, "_children", []) or []:
         h = max(h, 1 + (_height(ch) if hasattr(ch, "_children") else 0))
     return h
+
+
+def iterated_label(name):
+    """the documented label iteration of copies: 'col' -> 'col_01', 'col1' -> 'col2', 'col_02' -> 'col_03'"""
+    import re
+
+    m = re.search(r"[0-9]+\Z", name)
+    if m is None:
+        return name + ("" if name.endswith("_") else "_") + "01"
+    digits = m.group()
+    return name[: m.start()] + str(int(digits) + 1).zfill(len(digits))
 
 
 def _drop_label(s):
